@@ -12,10 +12,14 @@ LIT = {"Integer": "1", "String": "\"s\"", "Float": "1.5", "Symbol": ":s", "NilCl
 # ---------------------------------------------------------------- configuration
 
 def vf_methods():
-    def m(name, ret, args=None):
-        return {"name": name, "arguments": args or [], "return_type": {"type": ret}}
+    def m(name, ret, args=None, cond=False):
+        r = {"type": ret}
+        if cond:
+            r["is_conditional"] = True
+        return {"name": name, "arguments": args or [], "return_type": r}
     common = [m("vf_int", ["Int"]), m("vf_u", ["Int", "String"]), m("vf_sarr", ["[String]"]),
-              m("vf_opt", ["?String"]), m("vf_self", ["Self"]), m("vf_arg", ["Argument"], [{"type": ["Untyped"]}])]
+              m("vf_opt", ["?String"]), m("vf_self", ["Self"]), m("vf_arg", ["Argument"], [{"type": ["Untyped"]}]),
+              m("vf_cond", ["Int", "Float"], [{"type": ["Int", "Float"]}], cond=True)]
     mixed = [m("vf_unify_nil", ["Unify", "NilClass"]), m("vf_self_int", ["Self", "Int"]), m("vf_unify_str", ["Unify", "String"])]
     per = {"Array": common + mixed + [m("vf_unify", ["Unify"]), m("vf_ounify", ["OptionalUnify"]), m("vf_selfarr", ["SelfArray"])],
            "Hash": common + mixed + [m("vf_unify", ["Unify"]), m("vf_kva", ["KeyValueArray"])],
@@ -155,6 +159,10 @@ def stmt_src(s, sfx=""):
         return "%s.push(%s)" % (v(s["w"]), LIT[s["c"]])
     if op == "shl":
         return "%s << %s" % (v(s["w"]), LIT[s["c"]])
+    if op == "masgn":
+        return "%s, %s = %s, %s" % (v(s["v"]), v(s["w"]), LIT[s["c1"]], LIT[s["c2"]])
+    if op == "opasgn":
+        return "%s += %s" % (v(s["v"]), LIT[s["c"]])
     if op == "call":
         arg = "(%s)" % LIT[s["arg"]] if s.get("arg") else ""
         return "%s = %s.%s%s" % (v(s["v"]), v(s["w"]), s["m"], arg)
